@@ -8,8 +8,11 @@ a per-case alarm so that a corrupted length is std::bad_alloc, never an OOM kill
   illformed wrong version / data type / batch / payload length / unknown name / counts too large
   rawrd     the typed Reader on mutated encodings of every type
   savefail  unwritable path, /dev/full, RLIMIT_FSIZE at many offsets with SIGXFSZ ignored"""
+import importlib
+import os
 import re
 import struct
+import sys
 
 import pv
 from engines import io_common as io
@@ -210,7 +213,18 @@ def savefail_cases(ctx, objs, sizes):
 
 def run(ctx):
     ctx.level = "proof"
+    # (T) the bodies of Reader::check_eof / read / check_type of the CURRENT msgpack/reader.h ->
+    # Gen/IoReaderChecks.v (Props/Properties_C14_reader_checks.v: the source's functions reject short input)
+    checks = None
+    try:
+        sys.path.insert(0, os.path.join(pv.ROOT, "translate"))
+        checks = importlib.import_module("gen_io_headers").main()["checks"]
+    except Exception as e:
+        msg = "translate/gen_io_headers.py: %s: %s" % (type(e).__name__, e)
+        ctx.violation("translator", {"kind": "translator", "message": msg}, False, msg)
     res = ctx.prove()
+    ctx.cov["translator"] = "translate/gen_io_headers.py -> coq/Gen/IoReaderChecks.v (regenerated on this run: %s)" % (
+        "not understood: %s" % checks["notes"] if checks and checks["notes"] else "3 bodies read" if checks else "FAILED")
     impl, model = io.drivers(ctx)
     # quick: 512 MiB keeps the zero-filling of half-gigabyte strings out of the time budget
     as_mb = 512 if ctx.quick() else 2048
@@ -247,7 +261,7 @@ def run(ctx):
     # oracle on the implementation alone
     rc, outs = io.run_impl(impl, dmg_lines, env, timeout=1500)
     n_ops = n_rej = n_acc = n_partial = 0
-    for ln, (k, ops, n), o in zip(dmg_lines, dmg_meta, outs):
+    for ln, (k, ops, n), o in zip(dmg_lines, dmg_meta, io.padded(outs, len(dmg_lines))):
         msg = check_tokens(ctx, ln, ops, o, k, n)
         toks = o.split()
         n_ops += len(toks)
@@ -272,13 +286,17 @@ def run(ctx):
     dist["illformed"] = len(ill)
     pv.correspondence(ctx, "io-illformed", ill, impl, model, functional=True, impl_env=env, nontrivial=lambda c, out: True)
     rc, outs = io.run_impl(impl, ill, env)
+    if rc != 0 or len(outs) != len(ill):
+        ctx.violation("illformed-crash", {"kind": "crash", "rc": rc, "lines": len(outs), "case": ill[min(len(outs), len(ill) - 1)][:20000],
+                                          "witness": "io-illformed-crash", "impl_driver": impl}, True,
+                      "the real load() crashed / stopped on an ill-formed file (driver rc=%d, %d of %d outputs)" % (rc, len(outs), len(ill)))
     base = {}
     for ln in ill:
         key = ln.rsplit(" ", 1)[0]
         if key not in base:
             rc0, o0 = io.run_impl(impl, [key + " -"], env)
-            base[key] = o0[0] if o0 else "<none>"
-    for ln, o in zip(ill, outs):
+            base[key] = o0[0] if (o0 and rc0 == 0) else "<no output>"
+    for ln, o in zip(ill, io.padded(outs, len(ill))):
         if o != base[ln.rsplit(" ", 1)[0]] or not o.startswith("err "):
             # a model file may have replaced the parameters read completely before the error
             if ln.startswith("load m") and o.startswith("err "):
@@ -301,7 +319,11 @@ def run(ctx):
     sf_lines = [l for (l, _) in sf]
     pv.correspondence(ctx, "io-savefail", sf_lines, impl, model, functional=True, impl_env=io.impl_env(), nontrivial=lambda c, out: out.startswith("throws"))
     rc, outs = io.run_impl(impl, sf_lines, io.impl_env())
-    for (ln, exp), o in zip(sf, outs):
+    if rc != 0 or len(outs) != len(sf_lines):
+        ctx.violation("savefail-crash", {"kind": "crash", "rc": rc, "lines": len(outs), "case": sf_lines[min(len(outs), len(sf_lines) - 1)][:20000],
+                                         "witness": "io-savefail-crash", "impl_driver": impl}, True,
+                      "the real save() crashed / stopped on a failing device (driver rc=%d, %d of %d outputs)" % (rc, len(outs), len(sf_lines)))
+    for (ln, exp), o in zip(sf, io.padded(outs, len(sf_lines))):
         must_throw = exp is None or exp[0] < exp[1]
         if must_throw and not o.startswith("throws"):
             ctx.violation("savefail-oracle", {"kind": "savefail", "case": ln[:20000], "impl": o, "witness": "io-savefail"}, True,
@@ -325,6 +347,7 @@ def run(ctx):
     ctx.add_samples([dmg_lines[0][:400], ill[0][:300], ill[-1][:300], fz[10], sf_lines[2][:300]])
     cov["exhaustive"] = False
     ctx.assumptions += [
+        "the rejection of short input / other type bytes by Reader::read / check_type / get_uint8 / check_eof is tied to the current msgpack/reader.h by the regenerated Gen/IoReaderChecks.v over the model of std::istream in Msgpack/ReaderChecks.v (read(p, n) delivers n bytes or sets eofbit | failbit; operator! is fail())",
         "FileFormat.v is a hand transcription of load/load_inner/save of parameter.cc, model.cc, optimizer.cc (tied by the correspondence above): every member assignment of load_inner / set_configs is a separate state update in source order",
         "std::ofstream is modelled as a byte budget: bytes beyond it are lost and fail() holds after close(); std::ifstream as the list of bytes of the file",
         "any exception counts as rejection (a corrupted length field may surface as std::bad_alloc under the 2 GiB address-space limit, as primitiv::Error otherwise)",
